@@ -132,8 +132,8 @@ func init() {
 					return
 				}
 				for si, s := range shapes {
-					if len(cur) == 3 && si%4 != 0 {
-						continue // 4th location: a quarter of the shapes (bounds the thorough product)
+					if len(cur) == 3 && si%2 != 0 {
+						continue // 4th location: every second shape (bounds the thorough product)
 					}
 					s.Name = names[len(cur)]
 					rec(append(cur, s))
